@@ -292,7 +292,7 @@ func (f Frame) SliceHeader(i int) reflect.SliceHeader {
 
 // Value returns the ith column as a reflect.Value.
 func (f Frame) Value(i int) reflect.Value {
-	if f.off == 0 && f.len == f.cap {
+	if f.off == 0 && f.len == f.data[i].val.Len() {
 		return f.data[i].val
 	}
 	return f.data[i].val.Slice(f.off, f.off+f.len)
